@@ -4,6 +4,7 @@ gives the stack effect of every instruction on both branch outcomes, `co_lines`/
 Checked for every code object (recursively through co_consts):
   * every jump lands on an instruction boundary inside the code,
   * every constant / name / local / free-variable index is in range,
+  * a nested function is created (MAKE_FUNCTION) with exactly as many closure cells as it has free variables,
   * the operand-stack depth reachable on any path (abstract interpretation over the control-flow graph, as compile.c's stackdepth())
     is never negative and never exceeds co_stacksize,
   * every line of the line table lies inside the source file (1..n_lines).
@@ -87,6 +88,22 @@ def check(co, path, n_lines, problems):
             lim = (nlocals + ncell) if V >= (3, 11) else ncell
             if not (0 <= arg < lim):
                 problems.append("%s: offset %d %s cell/free index %d out of range (%d)" % (path, i.offset, i.opname, arg, lim))
+    # ---- closures: a nested function is created with exactly as many cells as it has free variables
+    for k, i in enumerate(ins):
+        if i.opname != 'MAKE_FUNCTION':
+            continue
+        back = [j for j in ins[max(0, k - 4):k] if j.opname != 'EXTENDED_ARG']
+        consts = [j for j in back if j.opname == 'LOAD_CONST' and isinstance(j.argval, types.CodeType)]
+        if not consts:
+            continue
+        inner = consts[-1].argval
+        has_closure = bool((i.arg or 0) & 0x08)
+        if not has_closure and inner.co_freevars:
+            problems.append("%s: offset %d MAKE_FUNCTION creates %s without a closure although it has free variables %r" % (path, i.offset, inner.co_name, inner.co_freevars))
+        if has_closure:
+            tup = [j for j in ins[max(0, k - 6):k] if j.opname == 'BUILD_TUPLE']
+            if tup and tup[-1].arg != len(inner.co_freevars):
+                problems.append("%s: offset %d MAKE_FUNCTION gives %s a closure of %d cells, it has %d free variables %r" % (path, i.offset, inner.co_name, tup[-1].arg, len(inner.co_freevars), inner.co_freevars))
     # ---- stack depth over the CFG (3.7's dis.stack_effect cannot tell the two outcomes of a branch apart: depth is not checked there)
     if V < (3, 8):
         return line_check(co, path, n_lines, problems)
